@@ -248,7 +248,7 @@ func Corpus(thorough bool) []Unit {
 		"reset", "string", "proto_message", "proto_reflect", "unknown_fields", "size_cache", "state", "x", "i", "l", "n", "v", "options", "input", "d_at_a", "size", "marshal", "unmarshal",
 		"fmt", "math", "runtime", "sort", "io", "proto", "protoreflect", "protoiface", "func", "map", "chan", "go", "select", "default", "package", "len", "nil", "value", "list", "fd", "md", "m"}
 	if !thorough {
-		names = []string{"descriptor", "type", "range", "has", "get", "set", "which_oneof", "is_valid", "proto_methods", "reset", "string", "x", "i", "l", "n", "options", "input", "size", "fmt", "math", "runtime", "sort", "io", "func", "map", "value", "m"}
+		names = []string{"descriptor", "type", "range", "has", "get", "set", "which_oneof", "is_valid", "proto_methods", "reset", "string", "proto_reflect", "proto_message", "x", "i", "l", "n", "options", "input", "size", "fmt", "math", "runtime", "sort", "io", "func", "map", "value", "m"}
 	}
 	camelName := func(s string) string { return camel(s) }
 	for _, n := range names {
